@@ -24,6 +24,8 @@ type Val struct {
 	Mem   string     // for pointers produced by FieldAddr on a private field: the field's memory
 	// untyped constant (spec side only)
 	Const constant.Value
+	// Cell: T is the address of a captured variable; a contract name denotes its content in the state of evaluation
+	Cell bool
 }
 
 func (v Val) isConst() bool { return v.Const != nil }
